@@ -40,7 +40,10 @@ def gate_tables(ctx):
             for i, (d, s) in enumerate(preds):
                 P = Obj(f"P{i}", TASK)
                 heap[(P.name, "state")] = E(TS, s)
-                heap[(P.name, "remaining_work_amount")] = Poly.const(5)
+                # READY gate: any value -- the gate must not depend on how much work a predecessor has left (positive, zero, an
+                # overshoot); FINISHED gate: a predecessor with work left (with none it would be a finish candidate of the same pass,
+                # which is the closure table R6.4's business)
+                heap[(P.name, "remaining_work_amount")] = Poly.sym(f"rem_P{i}") if gate == "READY" else Poly.const(5)
                 plist.append(ListV([P, E(DEP, d)], True, "list"))
                 colls["self.task_list"].append(P)
             heap[("T", "input_task_list")] = ListV(plist)
